@@ -470,6 +470,25 @@ def check(prop: str) -> int:
                 common.machinery_failure(f"{mod}: the reference no longer refines {target} ({summ['violated']}):\n" + out[-3000:])
             summ["formulas_checked"] = formulas
             rep.add_tlc(f"{mod} depth {depth} (refinement of {target}, proved in spec/proofs)", summ)
+        if prop == "C08":
+            # the failing release under concurrency: suspended writes, senders racing with the flush, one write
+            # of the flush failed by the harness at any point (harness/race.py, judged by RaceMonitor.tla)
+            from . import race
+            fruns, fverdicts, fstates, fsumm = race.fault_exploration(tier, workdir)
+            rep.add_tlc("MC_race with Faults = TRUE (FlushRace.tla: the pending write of the flush may fail)", fsumm,
+                        {"schedules_with_a_failed_write_replayed": fsumm.get("model_schedules_with_a_failed_write_replayed", 0)})
+            rep.cov["states"] += fstates
+            rep.cov["faulted_race_schedules"] = {"explored": len(fruns), "with_a_failed_write": sum(1 for r in fruns if r["faults"])}
+            rep.add_traces(len(fruns))
+            for r, v in zip(fruns, fverdicts):
+                if r["errors"]:
+                    v = "task-error"
+                if v != "ok":
+                    rep.violation({"verdict": v, "faulted": bool(r["faults"])},
+                                  {"kind": "race-schedule", "proto": r["proto"], "init": r["init"], "plan": r["plan"], "max_faults": 1,
+                                   "schedule": r["schedule"], "events": r["events"], "errors": r["errors"]},
+                                  f"{v}: protocol {r['proto']}, parked {r['init']}, senders {json.dumps(r['plan'])}, schedule {json.dumps(r['schedule'])}; "
+                                  f"events {[(e['e'], e['v']) for e in r['events'] if e['e'].startswith('write')]} {r['errors']}")
         # random deep behaviours of the unfocused model (all features interacting)
         sim = run_sim(150 if tier == "quick" else 2500, 25 if tier == "quick" else 40, common.seed() * 31 + int(prop[1:]), workdir)
         sim_hists = [h for h in sim["covers"] if "faults" not in spec or has_fault(sim, h) == spec["faults"]]
